@@ -296,6 +296,9 @@ func (e *Executor) outputs(tx *wire.MsgTx, proposals []*BtcTransferProposal) (ui
 		tx.AddTxOut(txOut)
 
 		outputAmount += prop.Data.Amount
+		if prop.Data.Amount > btcutil.MaxSatoshi || outputAmount > btcutil.MaxSatoshi {
+			return 0, fmt.Errorf("proposal amounts exceed the bitcoin supply: %d", prop.Data.Amount)
+		}
 	}
 
 	// Upload to IPFS
